@@ -141,6 +141,17 @@ def _elem_const_index(ix, o):
     return None
 
 
+def _mapped_over_enumerate(prog, top, closure_name):
+    """Is the closure handed to an adaptor whose receiver derives from an enumerate() call in `top`?"""
+    tix = index_of(top)
+    for _b, t in top.calls():
+        for a in t["args"][1:]:
+            r_ = tix.resolve(a)
+            if r_[0] == "rv" and r_[1]["k"] == "agg" and r_[1].get("ak") == "closure" and r_[1].get("closure") == closure_name:
+                return "enumerate" in {_last(c_) for c_ in derive(tix, t["args"][0]).calls}
+    return False
+
+
 def _array_ops(ix, op):
     """Operands of the array literal an operand was built from, or None."""
     r = ix.resolve(op)
@@ -603,7 +614,9 @@ def run(ctx):
                     sib_ok = True
                 if params == {2, 3} and not names:
                     same_ok = True
-        for cb in prog.closures_of("pbd::PreBoneDeformer::get_deform_matrices"):
+        # the search closure is one built in the analysed body: written in the function or in a helper inlined into it
+        built = [rv_["closure"] for _b, _s, st_ in gb.stmts() for rv_ in [st_.get("rv") or {}] if st_["k"] == "assign" and rv_.get("k") == "agg" and rv_.get("ak") == "closure" and rv_.get("closure")]
+        for cb in [prog.body(n_) for n_ in dict.fromkeys(built) if prog.body(n_)] or prog.closures_of("pbd::PreBoneDeformer::get_deform_matrices"):
             cix = index_of(cb)
             for _b, _s, st in cb.stmts():
                 rv = st.get("rv") or {}
@@ -677,9 +690,13 @@ def run(ctx):
         ms = (prog.adts.get("cmp::RacialScalingParameters") or {}).get("size")
         uses_sizeof = any((t.get("res") or "").endswith("mem::size_of") and ((t["f"].get("k") or {}).get("ga") or [""])[0] == "cmp::RacialScalingParameters" for _b, t in cb.calls())
         ctx.ob("CMP", "row-stride", ws == 56 and (not uses_sizeof or int(ms or -1) == ws), f"rows are {ws} bytes on the wire; the entry count divides by size_of = {ms}", cb.file, cb.line)
-        pushes = [t for _b, t in cb.calls() if _last(t.get("res")) == "push"]
-        reads = [t for _b, t in cb.calls() if "RacialScalingParameters" in (t.get("res") or "") + " ".join((t["f"].get("k") or {}).get("ga", [])) and "read" in _last(t.get("res"))]
-        ctx.ob("CMP", "rows-in-order", len(pushes) == 1 and len(reads) >= 1 and not any(_last(t.get("res")) in ("insert", "reverse", "rev", "sort", "sort_by", "swap") for _b, t in cb.calls()), "rows are pushed in the order they are read", cb.file, cb.line, trivial=True)
+        deep_c = prog.deep_bodies("cmp::CMP::from_existing")
+        all_calls = [t for b_ in deep_c for _b, t in b_.calls()]
+        pushes = [t for t in all_calls if _last(t.get("res")) == "push"]
+        reads = [t for t in all_calls if "RacialScalingParameters" in (t.get("res") or "") + " ".join((t["f"].get("k") or {}).get("ga", [])) and "read" in _last(t.get("res"))]
+        # rows collected by push in a loop, or by collect() over a forward map of the reads
+        collected = any(_last(t.get("res")) == "collect" for t in all_calls) and any(_last(t.get("res")) == "map" for t in all_calls)
+        ctx.ob("CMP", "rows-in-order", (len(pushes) == 1 or (not pushes and collected)) and len(reads) >= 1 and not any(_last(t.get("res")) in ("insert", "reverse", "rev", "sort", "sort_by", "swap") for t in all_calls), "rows are pushed in the order they are read", cb.file, cb.line, trivial=True)
 
     # ---- TERA
     tb = prog.body("tera::Terrain::from_existing")
@@ -721,7 +738,11 @@ def run(ctx):
             if len(fsites) == 1:
                 pc = fsites[0]
                 if len(pc) == 2 and pc[0][0] == "arg" and pc[0][1] == "display" and pc[0][2] == (4, 10, True) and pc[1] == ("lit", ".mdl") and pc[0][3] is not None:
-                    okf = bool(P.loop_var(ix, pc[0][3])) or "next" in {_last(c_) for c_ in derive(ix, pc[0][3]).calls}
+                    dfi = derive(ix, pc[0][3])
+                    okf = bool(P.loop_var(ix, pc[0][3])) or "next" in {_last(c_) for c_ in dfi.calls}
+                    if not okf and lit_b.name != tb_top.name and tb.name == lit_b.name:
+                        # inside a closure mapped over positions.iter().enumerate(): the index is field 0 of its argument
+                        okf = dfi.params == {2} and not dfi.calls and not dfi.ops and any(pth and pth[0] == "#0" for pth in dfi.paths) and _mapped_over_enumerate(prog, tb_top, lit_b.name)
             ctx.ob("TERA", "filename", okf, f"plate file names are formatted as {[_sshow(x) for x in fsites]} of the plate index; must be the zero-padded 4-digit index + .mdl", tb.file, tb.line)
         # writer: inverse formula inside the map closure, constants of the header
         wix = index_of(wb)
@@ -735,7 +756,7 @@ def run(ctx):
             ps = wix.resolve(ops["plate_size"])
             ctx.ob("TERA", "writer-plate-size", ps[0] == "const" and ps[1] == 128, f"plate_size written = {ps[1] if ps[0] == 'const' else '?'}; the grid is 128 units", wb.file, wb.line)
         inv = []
-        for cb2 in prog.closures_of("tera::Terrain::write_to_buffer"):
+        for cb2 in [b_ for b_ in prog.deep_bodies("tera::Terrain::write_to_buffer") if b_.name != "tera::Terrain::write_to_buffer"]:
             cix = index_of(cb2)
             for _b, st in _struct_agg(cb2, "tera::PlatePosition"):
                 ops = dict(zip(st["rv"]["fields"], st["rv"]["ops"]))
